@@ -241,6 +241,35 @@ def pool_sites(chrs, notes):
         notes.append(f"changes.rs: {len(others)} range expressions in get_pool_path, 1 expected"); return vals, False
     return vals, True
 
+# ---------------------------------------------------------------- completeness of the site list
+# every byte-range slicing expression of the five crates' library code (test modules cut off):
+# `x[a..b]`, `x[..b]`, `x[a..]`, `.split_at(`, `.split_at_mut(`, `get_unchecked`, `from_utf8_unchecked`
+CRATE_SRC = ["src", "debian-control/src", "debian-copyright/src", "dep3/src", "apt-sources/src"]
+EXPECTED_SITES = {"src/lex.rs": 7, "debian-control/src/vcs.rs": 5, "debian-control/src/lossless/changes.rs": 1}
+SLICE_RX = re.compile(r"[\w\)\]]\s*\[[^\[\]\n;]*\.\.[^\[\]\n;]*\]|\.split_at(?:_mut)?\s*\(|get_unchecked|from_utf8_unchecked")
+
+def strip_literals(src):
+    """string and char literals blanked (a `[a..b]` inside a text is not a slice)"""
+    return re.sub(r'"(?:\\.|[^"\\])*"', '""', src)
+
+def slice_sites(repo):
+    found = {}
+    for d in CRATE_SRC:
+        for root, dirs, files in os.walk(os.path.join(repo, d)):
+            dirs.sort()
+            for f in sorted(files):
+                if not f.endswith(".rs"): continue
+                path = os.path.join(root, f)
+                rel = os.path.relpath(path, repo)
+                if d == "src" and rel.count("/") > 1: continue
+                src = open(path, encoding="utf-8").read()
+                cut = src.find("#[cfg(test)]")
+                if cut >= 0: src = src[:cut]
+                src = strip_literals(strip_comments(src))
+                n = len(SLICE_RX.findall(src))
+                if n: found[rel] = n
+    return found
+
 def main(repo, gen):
     notes = []
     lexrs = open(os.path.join(repo, "src/lex.rs")).read()
@@ -249,7 +278,10 @@ def main(repo, gen):
     arms, ok1 = lex_arms(lexrs, notes)
     v, ok2 = vcs_sites(vcsrs, notes)
     p, ok3 = pool_sites(chrs, notes)
-    ok = ok1 and ok2 and ok3
+    sites = slice_sites(repo)
+    ok4 = sites == EXPECTED_SITES
+    if not ok4: notes.append("byte-range slicing sites of the library code: " + repr(sites) + ", modelled: " + repr(EXPECTED_SITES))
+    ok = ok1 and ok2 and ok3 and ok4
     lines = ["(* generated by translate/bytesites.py from src/lex.rs, debian-control/src/vcs.rs and debian-control/src/lossless/changes.rs — do not edit *)",
              "From V.model Require Import Base ByteLex.", "",
              "(* the arms of `match c` in lex_, in source order *)",
@@ -265,7 +297,11 @@ def main(repo, gen):
              f"Definition pool_prefix_src : nat := {p['prefix']}.", "",
              f"Definition lex_sites_recognised : bool := {'true' if ok1 else 'false'}.",
              f"Definition vcs_sites_recognised : bool := {'true' if ok2 else 'false'}.",
-             f"Definition pool_sites_recognised : bool := {'true' if ok3 else 'false'}."]
+             f"Definition pool_sites_recognised : bool := {'true' if ok3 else 'false'}.", "",
+             "(* every byte-range slicing expression (x[a..b], split_at, get_unchecked, from_utf8_unchecked) of the",
+             "   library code of the five crates, per file; complete = exactly the sites transcribed above *)",
+             "Definition slice_site_counts : list (str * nat) :=\n  [ " + ";\n    ".join(f"({coq_str(k)}, {v})" for k, v in sorted(sites.items())) + " ].",
+             f"Definition slice_sites_complete : bool := {'true' if ok4 else 'false'}."]
     for n in notes: lines.append("(* NOT RECOGNISED: " + n.replace("*)", "* )").replace("(*", "( *") + " *)")
     text = "\n".join(lines) + "\n"
     path = os.path.join(gen, "ByteSites_gen.v")
